@@ -181,6 +181,94 @@ def apply (d : PDesc) (op : Op) : PDesc :=
   | .ok (some d') => d'
   | _ => d
 
+/-! ### the service: `starting`, the `running` select loop, `stopping`
+
+`PartitionInstanceLifecycler` is a `services.BasicService`: `starting` (create-or-wait, then register) — if it
+fails the service is Failed and nothing else runs; `running` reconciles once on entry and then reacts, one
+event per loop iteration, to the ticker, to a function received on `actorChan` (`ChangePartitionState`) and
+to `ctx.Done()`; after that `stopping` runs once. Several lifecyclers and a `PartitionRingEditor` share the
+ring; every handler is one CAS on it, so a schedule is a sequence of `Act`s. -/
+
+structure Loop where
+  cfg : Cfg
+  createOnStartup : Bool := true
+  removeOwnerOnShutdown : Bool := false
+  deriving Repr, Inhabited
+
+/-- what one iteration of the `select` in `running` reacts to -/
+inductive Event
+  | tick (nowOwned nowOthers : Int)     -- `<-reconcileTicker.C`: `reconcile()` with its two `time.Now()`
+  | actor (to : Nat) (now : Int)         -- `f := <-l.actorChan; f()`: `ChangePartitionState(to)`
+  | stop                                  -- `<-ctx.Done()`, followed by `stopping`
+  deriving Repr
+
+inductive Phase | new | running | terminated | failed
+  deriving DecidableEq, Repr
+
+def Loop.startOp (l : Loop) (tokens : List Nat) (now : Int) : Op :=
+  if l.createOnStartup then .create l.cfg tokens now else .wait l.cfg now
+
+def Loop.tickOps (l : Loop) (a b : Int) : List Op := [.reconcileOwned l.cfg a, .reconcileOthers l.cfg b]
+
+def Loop.eventOps (l : Loop) : Event → List Op
+  | .tick a b => l.tickOps a b
+  | .actor to now => [.change l.cfg.pid to now]
+  | .stop => [.stopping l.cfg l.removeOwnerOnShutdown]
+
+inductive Act
+  | start (i : Nat) (tokens : List Nat) (now : Int) (first : Int × Int)  -- StartAsync of lifecycler `i`
+  | event (i : Nat) (e : Event)                                         -- one loop iteration of lifecycler `i`
+  | editor (op : Op)                                                    -- a `PartitionRingEditor` call
+  deriving Repr
+
+structure Sys where
+  ring : PDesc
+  phase : Nat → Phase
+
+def setPhase (f : Nat → Phase) (i : Nat) (p : Phase) : Nat → Phase := fun j => if j = i then p else f j
+
+/-- the store updates the implementation performs for `a` in state `s` (`[]` if `a` is not enabled) -/
+def actOps (ls : List Loop) (s : Sys) : Act → List Op
+  | .start i tokens now first =>
+    match ls[i]? with
+    | some l =>
+      if s.phase i = .new then
+        match step s.ring (l.startOp tokens now) with
+        | .error _ => [l.startOp tokens now]                         -- starting failed: `running` is never entered
+        | .ok _ => l.startOp tokens now :: l.tickOps first.1 first.2
+      else []
+    | none => []
+  | .event i e =>
+    match ls[i]? with
+    | some l => if s.phase i = .running then l.eventOps e else []
+    | none => []
+  | .editor op => [op]
+
+def actPhase (ls : List Loop) (s : Sys) : Act → Nat → Phase
+  | .start i tokens now _ =>
+    match ls[i]? with
+    | some l =>
+      if s.phase i = .new then
+        match step s.ring (l.startOp tokens now) with
+        | .error _ => setPhase s.phase i .failed
+        | .ok _ => setPhase s.phase i .running
+      else s.phase
+    | none => s.phase
+  | .event i e =>
+    match ls[i]?, e with
+    | some _, .stop => if s.phase i = .running then setPhase s.phase i .terminated else s.phase
+    | _, _ => s.phase
+  | .editor _ => s.phase
+
+def sysStep (ls : List Loop) (s : Sys) (a : Act) : Sys :=
+  { ring := (actOps ls s a).foldl apply s.ring, phase := actPhase ls s a }
+
+def sysRun (ls : List Loop) (s : Sys) (as : List Act) : Sys := as.foldl (sysStep ls) s
+
+/-- the calls a `PartitionRingEditor` offers -/
+def isEditorOp : Op → Bool
+  | .change .. => true | .lock .. => true | .removeMultiOwner .. => true | _ => false
+
 /-! ### GetKeysByPartition -/
 
 def insertIdx (pid : Int) (i : Nat) : List (Int × List Nat) → List (Int × List Nat)
